@@ -440,4 +440,4 @@ class DataArray(Entity, DataSet):
     @metadata.deleter
     def metadata(self):
         if "metadata" in self._h5group:
-            self._h5group.delete("metadata")
+            self._h5group.delete("metadata", delete_if_empty=False)
